@@ -161,13 +161,24 @@ def build_harness(name, harness_srcs, flavour="faithful", extra_flags=(), repo_s
 
 # ------------------------------------------------------------------------------------------------
 def run_translator():
-    p = run([sys.executable, os.path.join(VERIF, "tools", "translate_tables.py")])
-    return p.returncode, (p.stdout + p.stderr).strip()
+    """tools/translate_tables.py, then every tools/translators/*.py (each writes coq/theories/Generated_<name>.v
+    from /repo's working tree and fails closed with a non-zero status); then _CoqProject is brought up to date."""
+    msgs, rc = [], 0
+    scripts = [os.path.join(VERIF, "tools", "translate_tables.py")]
+    tdir = os.path.join(VERIF, "tools", "translators")
+    if os.path.isdir(tdir):
+        scripts += [os.path.join(tdir, f) for f in sorted(os.listdir(tdir)) if f.endswith(".py")]
+    for sc in scripts:
+        p = run([sys.executable, sc])
+        if p.returncode != 0:
+            rc = p.returncode
+        msgs.append(os.path.basename(sc) + ": " + (p.stdout + p.stderr).strip()[-600:])
+    run([sys.executable, os.path.join(VERIF, "tools", "gen_coqproject.py")])
+    return rc, " | ".join(msgs)
 
 def coq_build(targets, timeout=1500):
     """make the given .vo targets (full .vo build). Returns (ok, log)."""
-    if not os.path.exists(os.path.join(COQDIR, "Makefile")):
-        run(["coq_makefile", "-f", "_CoqProject", "-o", "Makefile"], cwd=COQDIR, check=True)
+    run([sys.executable, os.path.join(VERIF, "tools", "gen_coqproject.py")], check=True)
     p = run(["make", "-k", "-j%d" % NCPU] + ["theories/%s.vo" % t for t in targets], cwd=COQDIR, timeout=timeout)
     return p.returncode == 0, (p.stdout + p.stderr)
 
@@ -220,8 +231,17 @@ def properties_report(prop_file):
         assumptions[name] = "closed" if b.startswith("Closed") else " ".join(b.split())[:600]
     return ok, thms, assumptions, (p.stdout + p.stderr)[-4000:]
 
-def build_extracted(driver_ml, out_name, modname="evalmodel", extract_v="Extract.v"):
-    """coqc the extraction file, then ocamlfind ocamlopt the extracted module with its driver."""
+def build_extracted(driver_ml, out_name=None, modname=None, extract_v=None):
+    """Convention: build_extracted("<name>") uses extract/Extract_<name>.v (which must say
+    Extraction "<name>model.ml" ...), extract/<name>_driver.ml, and produces extract/gen/<name>_driver.
+    (The long form with explicit file names is kept for the eval family.)  coqc the extraction file in
+    extract/gen, then ocamlfind ocamlopt the extracted module with its driver. Cached by content hash of
+    the inputs and of every compiled theory."""
+    if out_name is None:
+        name = driver_ml
+        driver_ml, out_name, modname, extract_v = name + "_driver.ml", name + "_driver", name + "model", "Extract_%s.v" % name
+    modname = modname or "evalmodel"
+    extract_v = extract_v or "Extract_eval.v"
     gen = os.path.join(EXTRACT, "gen")
     os.makedirs(gen, exist_ok=True)
     exe = os.path.join(gen, out_name)
@@ -231,7 +251,8 @@ def build_extracted(driver_ml, out_name, modname="evalmodel", extract_v="Extract
     key = sha_of_sources(deps)
     if os.path.exists(exe) and os.path.exists(stamp) and open(stamp).read() == key:
         return exe
-    p = run(["coqc", "-Q", os.path.join(COQDIR, "theories"), "PS", os.path.join(EXTRACT, extract_v)], cwd=gen, timeout=900)
+    shutil.copy(os.path.join(EXTRACT, extract_v), os.path.join(gen, extract_v))
+    p = run(["coqc", "-Q", os.path.join(COQDIR, "theories"), "PS", extract_v], cwd=gen, timeout=900)
     if p.returncode != 0:
         raise BuildError("extraction failed\n" + (p.stdout + p.stderr)[-4000:])
     shutil.copy(os.path.join(EXTRACT, driver_ml), os.path.join(gen, driver_ml))
